@@ -205,6 +205,12 @@ def run(scratch, units=None, post=None, want_air=True, timeout=1800):
         txt = '\n'.join(d.get('rendered', '') for d in errs[:5]) + r.get('stderr_other', '')[-1500:]
         res.update(status='undecided', reason='verus front-end error / unsupported construct:\n' + txt[:3000])
         return res
+    vr = js.get('verification-results', {})
+    if errs and not vr.get('verified') and not vr.get('errors'):
+        # rustc-level errors (type errors caused by a spliced contract no longer matching the code): nothing was verified
+        txt = '\n'.join(d.get('rendered', '') for d in errs[:4])
+        res.update(status='undecided', reason='annotated crate does not compile (contract no longer matches the code):\n' + txt[:3000])
+        return res
     cache = {}
     for d in errs:
         f = classify(crate, d, cache)
